@@ -145,3 +145,12 @@ package lightning
 //@ func (*CLNInvoiceSub).Recv
 //@   tags C03
 //@   ensures @settled [C03] r1 == nil ==> (r0.Settled <==> response.Status == "paid")
+
+// ---- partial (MPP) payments: the same outcome rows
+//@ func (*CLNClient).PayPartialAmount
+//@   ensures @succeeded [C05] r1 == nil && r0.PaymentStatus == Succeeded ==> response.Status == "complete" && r0.Preimage == response.Preimage
+//@   ensures @failed [C05] r1 == nil && r0.PaymentStatus == Failed ==> response.Status == "failed"
+
+//@ func (*LndClient).PayPartialAmount
+//@   ensures @failedhaserr [C05] r0.PaymentStatus == Failed ==> r1 != nil
+//@   ensures @succeeded [C05] r1 == nil && r0.PaymentStatus == Succeeded ==> htlcAttempt.Status == lnrpc.HTLCAttempt_SUCCEEDED
